@@ -2,8 +2,8 @@ SPECIFICATION Spec
 CONSTANTS
   Kinds <- KindsFew
   CleanupIds = {"c1"}
-  DetailNames <- NamesNone
-  Mismatches = {"m1", "m2"}
+  DetailNames <- NamesTb
+  Mismatches = {"m1", "m2", "m3"}
   Attrs = {}
   Fixtures = {}
   MaxFaults = 1
@@ -14,7 +14,7 @@ CONSTANTS
   OnExcChoices = {FALSE}
   PreForceChoices = {FALSE}
   XfDecChoices = {FALSE}
-  StepOps = {"expect", "expectok", "addCleanup"}
+  StepOps = {"expect", "expectok", "addCleanup", "addDetail"}
   AllowMulti = FALSE
   Variant = "asRequired"
   UndoOf <- MCUndoOf
